@@ -1110,10 +1110,11 @@ func c07EveryFoundEntryAnswered(r *core.Report) {
 			return true
 		}
 		c, ok := core.Unparen(as.Rhs[0]).(*ast.CallExpr)
-		if !ok || core.BuiltinName(info, c) != "make" || len(c.Args) != 2 {
+		if !ok || core.BuiltinName(info, c) != "make" || (len(c.Args) != 2 && len(c.Args) != 3) {
 			return true
 		}
-		if cc, ok := core.Unparen(c.Args[1]).(*ast.CallExpr); ok && len(cc.Args) == 1 {
+		// make([]T, count(found))  or  make([]T, 0, count(found)) filled by append
+		if cc, ok := core.Unparen(c.Args[len(c.Args)-1]).(*ast.CallExpr); ok && len(cc.Args) == 1 {
 			if _, isMap := info.TypeOf(cc.Args[0]).Underlying().(*types.Map); isMap {
 				resp, found = core.ObjOf(info, as.Lhs[0]), core.ObjOf(info, cc.Args[0])
 			}
@@ -1134,9 +1135,14 @@ func c07EveryFoundEntryAnswered(r *core.Report) {
 		stores := false
 		ast.Inspect(rs.Body, func(m ast.Node) bool {
 			if as, ok := m.(*ast.AssignStmt); ok {
-				for _, l := range as.Lhs {
+				for i, l := range as.Lhs {
 					if ix, ok := core.Unparen(l).(*ast.IndexExpr); ok && core.ObjOf(info, ix.X) == resp {
 						stores = true
+					}
+					if core.ObjOf(info, l) == resp && i < len(as.Rhs) {
+						if ac, ok := core.Unparen(as.Rhs[i]).(*ast.CallExpr); ok && core.BuiltinName(info, ac) == "append" && len(ac.Args) >= 1 && core.ObjOf(info, ac.Args[0]) == resp {
+							stores = true
+						}
 					}
 				}
 			}
@@ -1324,13 +1330,33 @@ func slotWalkStopsOnlyBelowRange(r *core.Report, rule string) {
 				guards[x] = gs
 			}
 			return
+		case *ast.SwitchStmt:
+			// switch over a classifier helper: inside `case K:` the helper's own comparisons hold
+			for _, cl := range x.Body.List {
+				cc, isCC := cl.(*ast.CaseClause)
+				if !isCC {
+					continue
+				}
+				inner := append([]guard(nil), gs...)
+				if len(cc.List) == 1 {
+					if ce := core.ClassifierCond(f, x, cc.List[0]); ce != nil {
+						for _, fct := range core.DecomposeCond(ce, true) {
+							inner = append(inner, guard{fct.Expr, fct.Truth})
+						}
+					}
+				}
+				for _, st := range cc.Body {
+					walk(st, inner)
+				}
+			}
+			return
 		}
 		ast.Inspect(n, func(m ast.Node) bool {
 			if m == n || m == nil {
 				return true
 			}
 			switch m.(type) {
-			case *ast.IfStmt, *ast.BranchStmt, *ast.FuncLit:
+			case *ast.IfStmt, *ast.BranchStmt, *ast.FuncLit, *ast.SwitchStmt:
 				walk(m, gs)
 				return false
 			}
